@@ -156,8 +156,8 @@ pub fn collect(tier: &str, caps: &Caps, rep: &Report) -> Vec<BItem> {
 
 pub fn run(tier: &str) -> i32 {
     let rep = Report::new("C03", tier, "model_checking");
-    rep.set_rule("child direction: every prefix-closed subset of the path universe {p, pq, p.q, p.qr, p.q.r, r} (sibling names that are string prefixes of each other; depth <= 3) x 2-4 flat members assigned to root or any node x leaf instruction {none, rename, ~expr} x 0-2 struct-level ghosts addressed by child path (incl. ghost-only nodes) x EVERY permutation of the flat members; mirror direction: parameterised #[parent(..)] with 1-4 leaves at nesting depth 0-2 ([parent(..)] name: Type), renamed and/or with expression, every permutation, parent member first or last; bare #[parent]: 8 fixed layouts (named/tuple, 1-2 parents, order) whose parent types derive their own conversions. Each case is compiled through the real derive by rustc and executed: all 12 kinds x 2 value assignments; From result, nested Into literal and mutated pre-existing IntoExisting value compared leaf by leaf with the model. A nested struct built twice is a duplicate-field compile error, one split in two loses members. states = distinct test modules");
-    rep.assume("leaves are i32; all nodes are named structs (positional intermediate nodes are covered by the repo's own tests only); exploration is deviation-bounded (bound in `spaces`)");
+    rep.set_rule("child direction (named structs, and the positional twin `child-pos` with tuple structs and index paths): every prefix-closed subset of the path universe {p, pq, p.q, p.qr, p.q.r, r} (sibling names that are string prefixes of each other; depth <= 3) x 2-4 flat members assigned to root or any node x leaf instruction {none, rename, ~expr} x 0-2 struct-level ghosts addressed by child path (incl. ghost-only nodes) x EVERY permutation of the flat members; mirror direction: parameterised #[parent(..)] with 1-4 leaves at nesting depth 0-2 ([parent(..)] name: Type), renamed and/or with expression, every permutation, parent member first or last; bare #[parent]: 8 fixed layouts (named/tuple, 1-2 parents, order) whose parent types derive their own conversions. Each case is compiled through the real derive by rustc and executed: all 12 kinds x 2 value assignments; From result, nested Into literal and mutated pre-existing IntoExisting value compared leaf by leaf with the model. A nested struct built twice is a duplicate-field compile error, one split in two loses members. states = distinct test modules");
+    rep.assume("leaves are i32; a case is either named all the way down or positional all the way down (space child-pos: tuple structs, index paths written `1 .0`, designated positions = members, nested structs, ghosts); exploration is deviation-bounded (bound in `spaces`)");
     let caps = Caps::from_env(if tier == "quick" { 200.0 } else { 1500.0 });
     let items = collect(tier, &caps, &rep);
     if let Err(e) = run_items("C03", items, &rep, BOpts { no_std: false, features: "", name: "c03".into(), keep: std::env::var("VERIF_KEEP").is_ok() }) {
